@@ -349,3 +349,47 @@ pub fn rand_oplist(rng: &mut Rng) -> Vec<DiffOp> {
     }
     ops
 }
+
+/// G-BIG (validity flavour): long near-identical pairs — few edits, a block move or a
+/// duplicated block on top of a distinct or small-alphabet base with long equal runs.
+pub fn big_pair(rng: &mut Rng, min: usize, max: usize) -> (Vec<u32>, Vec<u32>) {
+    let n = rng.range(min, max);
+    let alpha: u32 = *rng.pick(&[2, 50, 1_000_000, 1_000_000]);
+    let a: Vec<u32> = if alpha == 1_000_000 {
+        (0..n as u32).collect()
+    } else if rng.chance(1, 2) {
+        (0..n).map(|_| rng.below(alpha as usize) as u32).collect()
+    } else {
+        // long runs of equal items
+        let mut v = Vec::with_capacity(n);
+        while v.len() < n {
+            let x = rng.below(alpha as usize) as u32;
+            let run = 1 + rng.below(300);
+            for _ in 0..run.min(n - v.len()) {
+                v.push(x);
+            }
+        }
+        v
+    };
+    let mut b = match rng.below(4) {
+        // (a moved block costs D = 2 * block length: keep it affordable on the huge inputs)
+        0 if n <= 8000 => block_move(rng, &a),
+        1 => {
+            let mut b = a.clone();
+            let s = rng.below(b.len());
+            let e = (s + 1 + rng.below(400)).min(b.len());
+            let blk: Vec<u32> = b[s..e].to_vec();
+            let at = rng.below(b.len() + 1);
+            b.splice(at..at, blk);
+            b
+        }
+        _ => a.clone(),
+    };
+    let k = rng.below(9);
+    b = point_edits(rng, &b, k, alpha, usize::MAX / 2);
+    if rng.chance(1, 2) {
+        (a, b)
+    } else {
+        (b, a)
+    }
+}
